@@ -62,7 +62,7 @@ META = {
     "level_note": "SQLite only (PostgreSQL/MariaDB are not executable here). Unloaded attributes have no in-memory value and are not compared; documented staleness S1-S7 is filtered (see module docstring); histories whose flush raises are left to C31/C32. Trusted base: mapper configuration facts (local/remote pairs, table/PK layout) read from the mappers, raw sqlite3 reads.",
     "design_ref": "DESIGN.md section 4, 'ORM properties - common rig' and C30",
     "rule": "case = one history (op list, knobs); non-trivial = its flushes emitted >= 2 distinct (verb, table) statement kinds; distinct by op list + knobs",
-    "shards": {"quick": 8, "thorough": 16},
+    "shards": {"quick": 16, "thorough": 16},
     "soft_s": {"quick": 50, "thorough": 840},
     "exhaustive": {"quick": False, "thorough": False},
     "require": ["flushes_judged", "commits_judged", "column_values_compared", "m2o_compared", "collections_compared",
